@@ -128,8 +128,8 @@ def write_evidence(prop, tier, seed, t0, R, C, violations, note=""):
             steps_compared_model_vs_impl=s.get("steps_compared", 0),
             full_application_path=dict(
                 histories=s.get("fullapp_histories", 0), operations=s.get("fullapp_steps", 0), signed_transactions=s.get("fullapp_transactions", 0),
-                accepted=s.get("fullapp_accepted", 0), foreign_signatures_refused=s.get("fullapp_foreign_signatures", 0), blocks=s.get("fullapp_blocks", 0),
-                what="the same generated histories executed on the harness shortcut (ValidateBasic + msg server on a CacheContext, BeginBlocker called directly) and through the application (signed single-message transactions via FinalizeBlock/Commit: ante handler, signature check against the declared signer, message router, module manager BeginBlock); result class, complete module state and user/escrow balances compared after every operation; a difference is a correspondence mismatch"),
+                accepted=s.get("fullapp_accepted", 0), foreign_signatures_refused=s.get("fullapp_foreign_signatures", 0), blocks=s.get("fullapp_blocks", 0), application_exports_compared=s.get("fullapp_app_exports", 0),
+                what="the same generated histories executed on the harness shortcut (ValidateBasic + msg server on a CacheContext, BeginBlocker called directly) and through the application (signed single-message transactions via FinalizeBlock/Commit: ante handler, signature check against the declared signer, message router, module manager BeginBlock); result class, complete module state and user/escrow balances compared after every operation; at the end of every history and at random points in it the application-level export (app/export.go, module manager, AppModule.ExportGenesis) is compared with the module-level export and passed to the module's ValidateGenesis; a difference is a correspondence mismatch"),
             correspondence_mismatches=s.get("mismatches", 0),
             checker_failures_on_impl=s.get("checkfails", 0),
             relevant_steps=n_steps,
